@@ -9,7 +9,9 @@ git -C /repo worktree add -q --detach "$WT" HEAD || exit 2
 cd "$WT"
 # demo files: *.rs go to the tests/ directory of the crate named in the README (default crux_core)
 CRATE=$(grep -o 'crux_[a-z]*/tests' "$D"/demo/README.md 2>/dev/null | head -1 | cut -d/ -f1); CRATE=${CRATE:-crux_core}
-TESTS=""
+FEATURES=$(grep -o -- '--features [a-z,_]*' "$D"/demo/README.md 2>/dev/null | head -1)
+TESTS="$FEATURES"
+mkdir -p "$CRATE/tests"
 for f in "$D"/demo/*.rs; do cp "$f" "$CRATE/tests/"; TESTS="$TESTS --test $(basename "$f" .rs)"; done
 echo "[$NAME] crate=$CRATE tests=$TESTS"
 cargo test -p "$CRATE" --offline $TESTS > /tmp/mut/confirm-$NAME-base.log 2>&1; BASE=$?
